@@ -59,12 +59,16 @@ var knownConsumers = map[string]string{
 }
 
 func wellKnownMime(tn string) (string, bool) {
+	// several patterns may match (e.g. application/x-tar+gzip): pick one that does not
+	// depend on the iteration order of the map, so that generation is reproducible
+	var name, pattern string
+	found := false
 	for k, v := range mediaTypeNames {
-		if k.MatchString(tn) {
-			return v, true
+		if k.MatchString(tn) && (!found || k.String() < pattern) {
+			name, pattern, found = v, k.String(), true
 		}
 	}
-	return "", false
+	return name, found
 }
 
 func mediaMime(orig string) string {
